@@ -191,6 +191,56 @@ def run(tier):
         if not ok:
             ck.finding("R6b.run-starts-clean", "R6b.run-starts-clean/%s" % p, F.short_span(f.span),
                        "`%s` starts a main program without emptying the export table: what a failed or abandoned earlier run exported shows up in this module's namespace" % p)
+    # R6c: the entries are siblings in what they do before they parse: each gives a previous run that was never finished to the disposer
+    # (the function that drops the VM and the wait graph), and each drops a program of an earlier run that still waits for its imports
+    ck.rule("R6c.entries-dispose-alike", "every entry that parses and starts a main program calls the run disposer and resets Interpreter.pending_program before the parse", floor=4)
+    disposers = set()
+    for p, f in fx.fns.items():
+        if f.derived or f.closure or not p.startswith("interpreter::Interpreter::"):
+            continue
+        w = set()
+        for bl in f.blocks:
+            for s_ in bl["s"]:
+                if s_[0] == "a":
+                    for a_, v_, n_ in F.place_fields(s_[1]):
+                        if a_ == INTERP:
+                            w.add(n_)
+        if {"active_vm", "wait_graph"} <= w:
+            disposers.add(p)
+    ck.anchor(bool(disposers), "run disposer(s): functions that reset both active_vm and wait_graph (found %s)" % sorted(d.split("::")[-1] for d in disposers))
+    for p, f in sorted(fx.fns.items()):
+        if f.derived or f.closure or not p.startswith("interpreter::Interpreter::") or p.split("::")[-1] not in ("eval", "prepare"):
+            continue
+        parses = [bi for bi, t in f.calls() if (t[1].get("d") or "").endswith("Parser::<'a>::parse_program")]
+        if not parses:
+            continue
+        disp = [bi for bi, t in f.calls() if t[1].get("d") in disposers and any(pb in f.reachable_from(bi) for pb in parses)]
+        ok1 = bool(disp)
+        ck.instance("R6c.entries-dispose-alike", "%s: disposer before the parse" % p, F.short_span(f.span), ok=ok1)
+        if not ok1:
+            ck.finding("R6c.entries-dispose-alike", "R6c.entries-dispose-alike/%s/disposer" % p, F.short_span(f.span),
+                       "`%s` starts a program without giving an unfinished previous run to the disposer (%s): `eval(\"1 + 1\")` after a suspended run the host abandoned "
+                       "answers Suspended, and after a run abandoned in mid-flight it executes in that run's scope with its call stack in place" % (p, ", ".join(sorted(d.split("::")[-1] for d in disposers))))
+        resets = set()
+        for bi, bl in enumerate(f.blocks):
+            for s_ in bl["s"]:
+                if s_[0] == "a" and any(a_ == INTERP and n_ == "pending_program" for a_, v_, n_ in F.place_fields(s_[1])):
+                    rv_ = s_[2]
+                    if rv_[0] == "use" and rv_[1][0] in ("c", "m") and not rv_[1][1][1]:
+                        d_ = M.trace_back(f, rv_[1][1][0])
+                        rv_ = d_[2] if d_ and d_[1] != "T" else rv_
+                    if rv_[0] == "agg" and isinstance(rv_[1], dict) and rv_[1].get("v") == "None":
+                        resets.add(bi)
+        for bi, t in f.calls():
+            if (t[1].get("d") or "").endswith("Option::<T>::take") and t[2] and t[2][0][0] in ("c", "m") and (E.field_of_ref(f, t[2][0][1][0]) or (0, 0, 0))[2] == "pending_program":
+                resets.add(bi)
+        reach = set() if 0 in resets else (f.reachable_from(0, stop=resets) | {0})
+        ok2 = bool(resets) and not any(pb in reach and pb not in resets for pb in parses)
+        ck.instance("R6c.entries-dispose-alike", "%s: pending_program reset before the parse" % p, F.short_span(f.span), ok=ok2)
+        if not ok2:
+            ck.finding("R6c.entries-dispose-alike", "R6c.entries-dispose-alike/%s/pending_program" % p, F.short_span(f.span),
+                       "`%s` starts a program while a program of an earlier run may still be parked in pending_program: after the new program completes, the next "
+                       "step() takes the parked one up again and answers NeedImports for a run the host gave up" % p)
     # R3: step() error arm
     # R3b: whoever takes the saved environment out of its slot puts it back whenever there is one
     ck.rule("R3b.slot-restore", "a function that takes Interpreter.active_saved_env restores Interpreter.env on every path on which the slot held a value", floor=1)
